@@ -24,6 +24,7 @@ EXPLANATION = (
     "(R5) nothing observable happens before input validation; (R6) a step's gather waits for all siblings. R5 also requires that every option check run() applies up front to a parameter map() forwards unchanged is applied by map() itself before the map-level span is opened; R6 extends to every gather of the runners: it collects exceptions, or no explicit raise escapes from the gathered coroutines (followed into sibling closures)."
     " R2 also requires that every builder of a RunEnd event decides the status by the presence of the handed-in exception (the parameter itself, or 'is None' tests on it, looked through single-assignment locals) — not by its message or anything else derived from it."
     " R1 also requires that span ids are not drawn from the process-global random generator."
+    " (R7) every event leaves through the channel that reaches every processor: inside a coroutine the dispatcher's async methods are used and awaited, inside a plain function the sync ones (the sync emit calls on_event only, so an async-only processor would never see the event that closes a span)."
 )
 NOT_DECIDED = "Timestamps and payload fields of events beyond span ids/status; that processors see events in wall-clock order across concurrently running siblings; paused runs (emit no RunEnd by design)."
 
